@@ -120,13 +120,20 @@ func (g *Gen) call(fr *Frame, st *State, c *ssa.CallCommon, res ssa.Value) Val {
 	}
 	key := funcKey(callee)
 	con := g.P.contracts[key]
+	anchorName := callee.Name()
+	if callee.Parent() != nil {
+		anchorName = closureVarName(callee)
+	}
+	var ret Val
 	if con != nil && !con.Inline && !(callee.Parent() != nil && len(con.Ensures) == 0 && len(con.Requires) == 0 && !con.HasModifies) {
-		return g.applyContract(fr, st, con, callee.Signature, args, false, resT, pkgOf(callee), key)
+		ret = g.applyContract(fr, st, con, callee.Signature, args, false, resT, pkgOf(callee), key)
+	} else if callee.Parent() != nil || (con != nil && con.Inline) || g.P.autoInline(callee) {
+		ret = g.inline(fr, st, callee, args, bindings, resT)
+	} else {
+		ret = g.uncontracted(fr, st, c, args, resT, key)
 	}
-	if callee.Parent() != nil || (con != nil && con.Inline) || g.P.autoInline(callee) {
-		return g.inline(fr, st, callee, args, bindings, resT)
-	}
-	return g.uncontracted(fr, st, c, args, resT, key)
+	g.callAnchorsAfter(fr, st, anchorName, callee, args, ret)
+	return ret
 }
 
 func ifaceKey(c *ssa.CallCommon) string {
